@@ -608,10 +608,12 @@ C_____________COMPUTE THETP, PHIP, THETP1, AND PHIP1, EQS. (8), (19), AND (20)
       CP=DCOS(PHIL-ALPH)
       SP=DSIN(PHIL-ALPH)
       CTP=CT*CB+ST*SB*CP
+      CTP=DMAX1(-1D0,DMIN1(1D0,CTP))
       THETP=DACOS(CTP)
       CPP=CB*ST*CP-SB*CT
       SPP=ST*SP
-      PHIP=DATAN(SPP/CPP)
+      PHIP=0D0
+      IF (SPP.NE.0D0.OR.CPP.NE.0D0) PHIP=DATAN(SPP/CPP)
       IF (PHIP.GT.0D0.AND.SP.LT.0D0) PHIP=PHIP+PIN
       IF (PHIP.LT.0D0.AND.SP.GT.0D0) PHIP=PHIP+PIN
       IF (PHIP.LT.0D0) PHIP=PHIP+2D0*PIN
@@ -621,10 +623,12 @@ C_____________COMPUTE THETP, PHIP, THETP1, AND PHIP1, EQS. (8), (19), AND (20)
       CP1=DCOS(PHIL1-ALPH)
       SP1=DSIN(PHIL1-ALPH)
       CTP1=CT1*CB+ST1*SB*CP1
+      CTP1=DMAX1(-1D0,DMIN1(1D0,CTP1))
       THETP1=DACOS(CTP1)
       CPP1=CB*ST1*CP1-SB*CT1
       SPP1=ST1*SP1
-      PHIP1=DATAN(SPP1/CPP1)
+      PHIP1=0D0
+      IF (SPP1.NE.0D0.OR.CPP1.NE.0D0) PHIP1=DATAN(SPP1/CPP1)
       IF (PHIP1.GT.0D0.AND.SP1.LT.0D0) PHIP1=PHIP1+PIN
       IF (PHIP1.LT.0D0.AND.SP1.GT.0D0) PHIP1=PHIP1+PIN
       IF (PHIP1.LT.0D0) PHIP1=PHIP1+2D0*PIN
